@@ -488,8 +488,8 @@ func (e *Engine) immutableSweep(used map[string]bool, prop string) *fnTrans {
 						if tk+"."+fname != key {
 							continue
 						}
-						if allocates[tk] {
-							continue // constructor-like
+						if allocates[tk] || e.contracts.Ctors[e.displayName(f)] {
+							continue // constructor-like, or a declared start-up function
 						}
 						hits = append(hits, fmt.Sprintf("%s at %s", e.displayName(f), e.fset.Position(st.Pos())))
 					}
